@@ -307,6 +307,20 @@ func applyGlobalTimeBounds(trpls map[string]*triple.Triple, ckr *checker) map[st
 	return selectedTrpls
 }
 
+// samePredicate reports whether two predicates have the same ID, the same type and, when
+// temporal, the same time anchor instant, regardless of the time zone used to express it.
+func samePredicate(p, q *predicate.Predicate) bool {
+	if p.ID() != q.ID() || p.Type() != q.Type() {
+		return false
+	}
+	if p.Type() == predicate.Immutable {
+		return true
+	}
+	tp, errP := p.TimeAnchor()
+	tq, errQ := q.TimeAnchor()
+	return errP == nil && errQ == nil && tp.Equal(*tq)
+}
+
 // isImmutableFilter executes the isImmutable filter operation over memoryTriples following filterOptions.
 func isImmutableFilter(memoryTriples map[string]*triple.Triple, pQuery *predicate.Predicate, filterOptions *filter.StorageOptions) (map[string]*triple.Triple, error) {
 	if filterOptions.Field != filter.PredicateField && filterOptions.Field != filter.ObjectField {
@@ -315,7 +329,7 @@ func isImmutableFilter(memoryTriples map[string]*triple.Triple, pQuery *predicat
 
 	trps := make(map[string]*triple.Triple)
 	for _, t := range memoryTriples {
-		if pQuery != nil && pQuery.String() != t.Predicate().String() {
+		if pQuery != nil && !samePredicate(pQuery, t.Predicate()) {
 			continue
 		}
 
@@ -346,7 +360,7 @@ func isTemporalFilter(memoryTriples map[string]*triple.Triple, pQuery *predicate
 
 	trps := make(map[string]*triple.Triple)
 	for _, t := range memoryTriples {
-		if pQuery != nil && pQuery.String() != t.Predicate().String() {
+		if pQuery != nil && !samePredicate(pQuery, t.Predicate()) {
 			continue
 		}
 
@@ -378,7 +392,7 @@ func latestFilter(memoryTriples map[string]*triple.Triple, pQuery *predicate.Pre
 	lastTA := make(map[string]*time.Time)
 	trps := make(map[string]map[string]*triple.Triple)
 	for _, t := range memoryTriples {
-		if pQuery != nil && pQuery.String() != t.Predicate().String() {
+		if pQuery != nil && !samePredicate(pQuery, t.Predicate()) {
 			continue
 		}
 
